@@ -51,7 +51,7 @@ func Markdown(text string) string {
 
 var roffEscapes = []string{
 	"\"", "\\(dq",
-	"…", "...", // bug with groff
+	"…", "\\&...", // bug with groff; not a request at the beginning of a line
 	"'", "\\(cq",
 	".", "\\&.",
 	"\\", "\\e",
